@@ -108,7 +108,7 @@ func LiveMPD(a *asset, mpdName string, cfg *ResponseConfig, drmCfg *drm.DrmConfi
 	endTimeMS := nowMS
 	if cfg.StopTimeS != nil {
 		stopTimeMS := *cfg.StopTimeS * 1000
-		if stopTimeMS < nowMS {
+		if stopTimeMS <= nowMS { // The stream has stopped at the stop time, which is the publishTime of the static MPD
 			endTimeMS = stopTimeMS
 			afterStop = true
 		}
